@@ -113,9 +113,26 @@ class AsyncOrmDriver(Driver):
 
     def reset(self, state):
         objs = sorted(state["life"].keys())
-        self.real.reset(init_pks(objs), expire_on_commit=self.eoc)
+        self.broken = None
+        try:
+            self.real.reset(init_pks(objs), expire_on_commit=self.eoc)
+        except Exception as e:      # noqa
+            self.broken = "AsyncSession could not be set up: %r" % (e,)
+
+    def step(self, frm, act, to):
+        if self.broken:
+            return self.broken
+        return Driver.step(self, frm, act, to)
 
     def finish(self, state):
+        if self.broken:
+            return self.broken
+        try:
+            return self._finish(state)
+        except Exception as e:      # noqa  - the drain itself failing is a divergence, not a harness crash
+            return "drain raised %r" % (e,)
+
+    def _finish(self, state):
         """drain as in the sync driver: commit a clean session / roll anything else back, then a fresh AsyncSession must load
         exactly the committed rows"""
         r = self.real
